@@ -21,6 +21,7 @@ import LA.Drive.Acl
 import LA.Drive.Thr
 import LA.Drive.ClientWrite
 import LA.Drive.Xtr
+import LA.Drive.ReadData
 open LA
 
 def engines : List (String × Engine) := [
@@ -47,7 +48,8 @@ def engines : List (String × Engine) := [
   ("det", LA.WC.engine),
   ("xtr", LA.Xtr.engine),
   ("xtrtar", LA.Xtr.engine),
-  ("pathclean", LA.Xtr.enginePath)
+  ("pathclean", LA.Xtr.enginePath),
+  ("rdd", LA.RD.engine)
 ]
 
 partial def loop (e : Engine) (h : IO.FS.Stream) (out : IO.FS.Stream) (s : e.σ) : IO Unit := do
